@@ -975,6 +975,15 @@ _PYOPS = {
 
 def binop(ctx: Ctx, op: str, a, b):
     a, b = mk(a), mk(b)
+    if op == "Sub" and type(a).__name__ == "_KeyList" and type(b).__name__ == "_KeyList":
+        out = type(a)()
+        for x in a:
+            t = contains_term(ctx, x, list(b))
+            if t is True:
+                continue
+            if t is False or not ctx.branch(t, "key also in the other map"):
+                out.append(x)
+        return out
     if is_concrete(a) and is_concrete(b):
         return _PYOPS[op](a, b)
     if op == "Add":
